@@ -366,7 +366,7 @@ class Discharger:
         if not holders and mac in ("assert", "debug_assert"):
             # an assertion that restates what the parser steps above it have established (a run of at least one character is
             # not empty): it cannot fire.  Every assertion of the function must be proved.
-            nodes = find_all(f.body, lambda n: n.get("k") == "macro" and n["name"] == mac)
+            nodes = find_all(f.body, lambda n: n.get("k") == "macro" and n["name"] == mac) + [nd for nd in (f.node.get("_asserts") or []) if nd.get("name") == mac]
             if nodes and all(nd.get("args") for nd in nodes):
                 res = [self.assert_holds(f, nd["args"][0]) for nd in nodes]
                 if all(r_[0] for r_ in res):
